@@ -260,6 +260,8 @@ def exec_walk(world_args, walk: list[dict], stop_on_unfired: bool) -> tuple[dict
     done = 0
     try:
         for j, e in enumerate(walk):
+            if world.init_failed:  # the construction itself failed: that event is the history
+                break
             a = dict(e["op"]["a"])
             hint = None
             if a["op"] == "next" and a["fault"] != "none":
@@ -271,7 +273,7 @@ def exec_walk(world_args, walk: list[dict], stop_on_unfired: bool) -> tuple[dict
                 if stop_on_unfired:
                     break
             done = j + 1
-        trace = {"init": init, "events": world.log, "cfg": cfg}
+        trace = world.trace()
     finally:
         world.close()
         W.refreeze()
@@ -401,13 +403,13 @@ def random_history(world_args, rng: random.Random, length: int) -> dict:
         init = dict(kind=rng.choice(["path", "pil", "url"]), anim=native or rng.random() < 0.85,
                     size=rng.choice(["A", "dyn"]), term=1)
     world = W.World(cfg, init, server, wrng)
-    tr = Tracker(init)
+    tr = Tracker(world.trace_init)
     try:
         for _ in range(length):
             a = tr.choose(rng, native)
             ev = world.execute(a)
             tr.update(ev["a"], ev["o"]["res"])
-        return {"init": init, "events": world.log, "cfg": cfg}
+        return world.trace()
     finally:
         world.close()
         W.refreeze()
@@ -425,12 +427,20 @@ def signature(trace: dict, at: int, verdict: str) -> str:
             closed = True
         elif a["op"] == "dropimage":
             kind, closed = "none", False
-    a = ev["a"]
+    a, o = ev["a"], ev["o"]
     if a["op"] == "open":
         kind = a["kind"] + "-" + a["outcome"]
     ctx = kind + ("+image-closed" if closed else "") + ("+fault" if a["fault"] != "none" else "")
     op = a["op"] + ("-animated" if a["op"] == "draw" and a["animated"] else "")
-    return f"{op}:{verdict.split(':')[0]}:{ctx}"
+    clause = verdict.split(":")[0]
+    # an exception the specification does not allow here is named in the signature
+    if clause == "result" and o["res"] not in ("ok", "frame", "stop", "fault"):
+        clause = f"raises:{o['res']}"
+    elif clause == "cache-visible" and "raised" in o.get("pairErr", ""):
+        clause = "cache-visible:twin-raises-" + o["pairErr"].split("raised ", 1)[1].split(":")[0]
+    elif clause.startswith("frame-") and o.get("refErr", "").startswith("reference format() raised"):
+        clause += ":reference-raises-" + o["refErr"].split("raised ", 1)[1].split(":")[0]
+    return f"{op}:{clause}:{ctx}"
 
 
 def scenario_of(trace: dict, upto: int) -> dict:
@@ -472,7 +482,9 @@ def report_failures(rep: Report, traces, verdicts, origin: str) -> int:
         ev = t["events"][at - 1]
         rep.violation(
             signature(t, at, v["verdict"]),
-            f"{v['verdict']}\nat event {at}: {json.dumps(ev['a'])}\nobserved: {json.dumps(ev['o'])}\n"
+            f"{v['verdict']}\n"
+            + "".join(f"{k}: {ev['o'][k]}\n" for k in ("raised", "pairErr", "refErr") if k in ev["o"])
+            + f"at event {at}: {json.dumps(ev['a'])}\nobserved: {json.dumps(ev['o'])}\n"
             f"history: {' '.join(e['a']['op'] + ('!' + e['a']['fault'] if e['a']['fault'] != 'none' else '') for e in t['events'][:at])}\n"
             f"config: {json.dumps(t['cfg'])} init: {json.dumps(t['init'])} ({origin})",
             scenario_of(t, at),
@@ -570,10 +582,12 @@ def run_replay(rep: Report, replay: dict, server, stats: Counter) -> None:
     world = W.World(sc["cfg"], sc["init"], server, rng)
     try:
         for a in sc["actions"]:
+            if world.init_failed:
+                break
             a = dict(a)
             fault = (a["fault"], a.pop("k", 1)) if a["fault"] != "none" else None
             world.execute(a, fault=fault)
-        trace = {"init": sc["init"], "events": world.log, "cfg": sc["cfg"]}
+        trace = world.trace()
     finally:
         world.close()
     account(stats, rep, trace)
@@ -619,10 +633,11 @@ def run_all(rep: Report, T: dict, server, stats: Counter) -> None:
         verdicts = validate(rep, traces, f"c11-edges{rounds}", stats)
         for (trace, path, done), v in zip(batch, verdicts):
             account(stats, rep, trace)
-            good = done if v["verdict"] == "ok" else min(done, v["at"] - 1)
+            off = trace.get("offset", 0)  # 1: the failed initial construction is event 1
+            good = done if v["verdict"] == "ok" else max(0, min(done, v["at"] - 1 - off))
             cover.covered.update(path[:good])
-            if v["verdict"] != "ok" and v["at"] - 1 < len(path):
-                cover.bad.add(path[v["at"] - 1])
+            if v["verdict"] != "ok" and 0 <= v["at"] - 1 - off < len(path):
+                cover.bad.add(path[v["at"] - 1 - off])
             elif v["verdict"] == "ok":
                 all_ok_traces.append(trace)
         failures += report_failures(rep, traces, verdicts, "edge replay")
